@@ -391,6 +391,12 @@ func e3() {
 func main() {
 	rate.VerifNow = vclock.Now
 	res = report.Init("C17", "model_checking")
+	if report.FreeRun > 0 {
+		explore.FreeRuns = report.FreeRun
+		e2()
+		res.Add("free_runs", int64(explore.FreeRunsDone))
+		res.Finish()
+	}
 	e2() // before any olla instance exists
 	depth := 4
 	if report.Thorough() {
